@@ -356,3 +356,17 @@ fn c12_transfer_from_allowed_strict() {
     kani::assert(true, "VERIF:C12:a delegated transfer within a live allowance (usable up to and including its expiration ledger) and within the balance succeeds");
     kani::cover!(amount > 0 && s.al_exp == s.seq, "VERIF:reach:allowed on the expiration ledger");
 }
+
+// HARNESS props=C12 tier=quick profile=tok mode=strict shape="revocation: approve(amount = 0) with any expiration (past, present, future) by the authorised owner must succeed without any trap"
+#[kani::proof]
+fn c12_revoke_strict() {
+    let s = pre();
+    let from = any::address(3);
+    let spender = any::address(3);
+    let exp: u32 = kani::any();
+    model::set_auth(&from, true);
+    model::with_contract(&tok(), || InterchainToken::approve(s.env.clone(), from.clone(), spender.clone(), 0, exp));
+    let q = model::with_contract(&tok(), || InterchainToken::allowance(s.env.clone(), from.clone(), spender.clone()));
+    kani::assert(q == 0, "VERIF:C12:an allowance can always be revoked: approving zero succeeds whatever the expiration ledger, and leaves nothing to spend");
+    kani::cover!(exp < s.seq, "VERIF:reach:revoked with a past expiration");
+}
